@@ -38,3 +38,6 @@ def run(ctx):
     ctx.guard(k17_entry, ctx, "C01")
     from ..rules_misc import k21_match_overrides
     ctx.guard(k21_match_overrides, ctx, "C01")
+    # every class must compile the pattern of its own structure(): what the accepted language rests on
+    from ..rules_ast import persistent_state_rule
+    ctx.guard(persistent_state_rule, ctx, "C01.own-pattern")
